@@ -51,7 +51,8 @@ CLAIMED = {
               "round-trip lemma are discharged; path channel (open(path,'wb') / MMap(path) over the modelled file system) of export and of the "
               "loaders of Bloom, counting Bloom, count-min and expanding filters discharged; the constructors' filepath= argument and the hex channel (export_hex, _load_hex, "
               "hex_string=, round-trip lemmas; hex text = sequence of digit values) of Bloom and counting Bloom discharged; "
-              "cuckoo formats: bounded history stand-in; one known finding (fingerprint 0)", tech=_TB),
+              "cuckoo export layout (export, __bytes__, path, _parse_footer, _parse_bucket) discharged; cuckoo loaders and the "
+              "counting cuckoo format: bounded history stand-in; one known finding (fingerprint 0)", tech=_TB),
     "C06": _c("the export contracts ARE the documented layout (cells, then footer fields at fixed offsets, little endian, bit i in "
               "byte i div 8); the default hash is proved to be the published FNV-1a recurrence seeded per index; positions are "
               "hash mod size by the add contracts",
